@@ -318,6 +318,147 @@ def _child_forms(arg):
     return [_one(kind, cf, cname, a, k) for a, k in forms]
 
 
+# -- parameter names -------------------------------------------------------------------------
+# "every call that the plain function accepts is accepted by the cached wrapper": the wrapper forwards the
+# user's keywords through joblib functions that have named parameters of their own.  Alphabet = every
+# identifier joblib itself uses as a parameter name in the modules on the cached-call path.
+
+def joblib_parameter_names():
+    import keyword
+    import joblib.memory
+    import joblib.func_inspect
+    import joblib._store_backends
+    import joblib.hashing
+    import joblib.logger
+    names = set()
+    for mod in (joblib.memory, joblib.func_inspect, joblib._store_backends, joblib.hashing, joblib.logger):
+        objs = []
+        for o in vars(mod).values():
+            if inspect.isfunction(o) and o.__module__ == mod.__name__:
+                objs.append(o)
+            elif inspect.isclass(o) and o.__module__ == mod.__name__:
+                objs += [m for m in vars(o).values() if inspect.isfunction(m)]
+        for f in objs:
+            co = f.__code__
+            names.update(co.co_varnames[:co.co_argcount + co.co_kwonlyargcount + bool(co.co_flags & 4) + bool(co.co_flags & 8)])
+    return sorted(n for n in names if n.isidentifier() and not keyword.iskeyword(n))
+
+
+NAME_SHAPES = ("first", "kwonly", "varkw")
+
+
+def _names_source(names):
+    out = ["COUNT = {}\n\n"]
+    for i, nm in enumerate(names):
+        out.append("def a%d(%s, y=2):\n    COUNT['a%d'] = COUNT.get('a%d', 0) + 1\n    return ('a', %s, y)\n\n" % (i, nm, i, i, nm))
+        out.append("def b%d(x, *, %s):\n    COUNT['b%d'] = COUNT.get('b%d', 0) + 1\n    return ('b', x, %s)\n\n" % (i, nm, i, i, nm))
+        out.append("def c%d(x, **kw):\n    COUNT['c%d'] = COUNT.get('c%d', 0) + 1\n    return ('c', x, sorted(kw.items()))\n\n" % (i, i, i))
+    return "".join(out)
+
+
+def _work_names(item):
+    tier, names, lo, hi = item
+    import contextlib
+    import io
+    import joblib
+    import logging
+    import warnings
+    logging.disable(logging.CRITICAL)
+    warnings.simplefilter("ignore")
+    root = core.scratch_dir("c06n-%d" % os.getpid())
+    modname = "vf_c06_names_%d" % lo
+    path = os.path.join(root, modname + ".py")
+    with open(path, "w") as f:
+        f.write(_names_source(names))
+    mod = memgen.load_module(path, modname)
+    n = 0
+    viols = {}
+    sink = io.StringIO()
+    for i in range(lo, hi):
+        nm = names[i]
+        for shape, fname in zip(NAME_SHAPES, ("a%d" % i, "b%d" % i, "c%d" % i)):
+            fn = getattr(mod, fname)
+            pos = (7,) if shape != "first" else ()
+            kw = {nm: 1}
+            want = fn(*pos, **kw)
+            for verbose in (0, 1, 50):
+                for api in ("__call__", "call_and_shelve", "call", "check_call_in_cache"):
+                    loc = os.path.join(root, "cache-%d-%s-%d-%s" % (i, shape, verbose, api))
+                    mem = joblib.Memory(loc, verbose=verbose)
+                    cf = mem.cache(fn)
+                    steps = []
+                    try:
+                        with contextlib.redirect_stdout(sink), contextlib.redirect_stderr(sink):
+                            mod.COUNT[fname] = 0
+                            if api == "__call__":
+                                steps.append("cold call")
+                                got = cf(*pos, **kw)
+                                steps.append("warm call")
+                                got2 = cf(*pos, **kw)
+                            elif api == "call_and_shelve":
+                                steps.append("cold call_and_shelve")
+                                got = cf.call_and_shelve(*pos, **kw).get()
+                                steps.append("warm call_and_shelve")
+                                got2 = cf.call_and_shelve(*pos, **kw).get()
+                            elif api == "call":
+                                steps.append("call")
+                                got = cf.call(*pos, **kw)
+                                got = got[0] if isinstance(got, tuple) and len(got) == 2 and isinstance(got[1], dict) else got
+                                steps.append("call after call()")
+                                got2 = cf(*pos, **kw)
+                            else:
+                                steps.append("check_call_in_cache before")
+                                before = cf.check_call_in_cache(*pos, **kw)
+                                steps.append("cold call")
+                                got = cf(*pos, **kw)
+                                steps.append("check_call_in_cache after")
+                                after = cf.check_call_in_cache(*pos, **kw)
+                                got2 = got
+                                if before is not False or after is not True:
+                                    raise AssertionError("check_call_in_cache answered %r before and %r after the call" % (before, after))
+                            execs = mod.COUNT[fname]
+                            # a damaged entry: the load failure path formats the call for its warning
+                            if api == "__call__":
+                                for r_, _d, files in os.walk(loc):
+                                    if "output.pkl" in files:
+                                        with open(os.path.join(r_, "output.pkl"), "wb") as f:
+                                            f.write(b"\x80")
+                                steps.append("call on a damaged entry")
+                                got3 = cf(*pos, **kw)
+                                if got3 != want:
+                                    raise AssertionError("damaged entry: returned %r" % (got3,))
+                    except BaseException as e:  # noqa
+                        n += 1
+                        sig = "call-rejected:%s|%s|parameter-named-%s" % (type(e).__name__, api, nm)
+                        if sig not in viols:
+                            call = "%s(%s%s=1)" % (fname, "7, " if pos else "", nm)
+                            viols[sig] = [sig, "the plain function accepts %s (%s parameter named %r) but the cached wrapper fails at step '%s' "
+                                               "(Memory(verbose=%d)): %s: %s" % (call, shape, nm, steps[-1] if steps else "?", verbose, type(e).__name__, str(e)[:200]),
+                                          {"part": "names", "name": nm, "shape": shape, "verbose": verbose, "api": api}]
+                        continue
+                    finally:
+                        sink.seek(0)
+                        sink.truncate()
+                    n += 1
+                    if got != want or got2 != want:
+                        sig = "wrong-value|%s|parameter-named-%s" % (api, nm)
+                        viols.setdefault(sig, [sig, "%s with %s=1: returned %r / %r instead of %r" % (fname, nm, got, got2, want),
+                                               {"part": "names", "name": nm, "shape": shape, "verbose": verbose, "api": api}])
+                    elif execs != 1:
+                        sig = "re-executed|%s|parameter-named-%s" % (api, nm)
+                        viols.setdefault(sig, [sig, "%s with %s=1: %d executions for two identical calls" % (fname, nm, execs),
+                                               {"part": "names", "name": nm, "shape": shape, "verbose": verbose, "api": api}])
+                    shutil.rmtree(loc, ignore_errors=True)
+    shutil.rmtree(root, ignore_errors=True)
+    return {"n": n, "groups": (hi - lo) * 3, "viol": list(viols.values()), "names": hi - lo}
+
+
+def _dispatch(item):
+    if item[0] == "names":
+        return _work_names(item[1])
+    return _work(item)
+
+
 def _untuple(x):
     if isinstance(x, list):
         return tuple(_untuple(e) for e in x)
@@ -335,8 +476,12 @@ def run(ctx):
             sub = idxs[c::nchunk]
             if sub:
                 items.append((ctx.tier, kind, sub))
+    names = joblib_parameter_names()
+    step = max(1, (len(names) + 15) // 16)
+    for lo in range(0, len(names), step):
+        items.append(("names", (ctx.tier, names, lo, min(len(names), lo + step))))
     n = g = 0
-    for res in core.pmap(_work, items):
+    for res in core.pmap(_dispatch, items):
         n += res["n"]
         g += res["groups"]
         for v in res["viol"]:
@@ -346,17 +491,31 @@ def run(ctx):
                 "that Signature.bind maps to that binding, issued one after the other on one cache directory (second half in a fresh "
                 "forked process for every third group); then clear() or reduce_size(items_limit=0) and the call again; ignore=[p] for "
                 "every named parameter (ignored value changed: no execution; other parameter changed: execution); dict and set "
-                "arguments rebuilt in another insertion order. evaluations = cached calls judged; distinct_nontrivial = binding groups"
-                % _N)
+                "arguments rebuilt in another insertion order. Parameter names: every identifier joblib uses as a parameter name in "
+                "memory / func_inspect / _store_backends / hashing / logger (%d names) x {first parameter, keyword-only parameter, key "
+                "received by **kw} passed by keyword x Memory(verbose 0/1/50) x {__call__, call_and_shelve, call, check_call_in_cache} "
+                "incl. a call on a damaged entry. evaluations = cached calls judged; distinct_nontrivial = binding groups"
+                % (_N, len(names)))
     ctx.exhaustive = True
     ctx.sample({"kind": "func", "signature": "def f(a, b=D, *, c=D)", "binding": "a=v b=default c=v",
                 "equivalent_forms": ["f(v, c=v)", "f(v, d_b, c=v)", "f(a=v, c=v)", "f(v, b=d_b, c=v)", "f(c=v, a=v)"]})
     ctx.assumptions += ["execution counter kept by the generated function bodies (same process or returned through the forked child)",
                         "equivalent = identical inspect.Signature.bind(...).arguments after apply_defaults"]
-    return {"evaluations": n, "distinct_nontrivial": g, "signatures": len(_SIGS), "kinds": len(memgen.KINDS)}
+    return {"evaluations": n, "distinct_nontrivial": g, "signatures": len(_SIGS), "kinds": len(memgen.KINDS),
+            "parameter_names": len(names)}
 
 
 def replay(data):
+    if data.get("part") == "names":
+        names = joblib_parameter_names()
+        i = names.index(data["name"])
+        res = _work_names(("thorough", names, i, i + 1))
+        for v in res["viol"]:
+            print(v[0], v[1])
+        if res["viol"]:
+            print("VIOLATION property=C06 replay=<this file>")
+            return 1
+        return 0
     _setup(data["n_params"])
     res = _work(("thorough", data["kind"], [data["sig_index"]]))
     for v in res["viol"]:
